@@ -205,6 +205,18 @@ fn run_prop(prop: &str, tier: Tier, seed: u64) -> i32 {
             props::crash::c09(&ctx);
             ctx.finish(tier.pick(100, 2000))
         }
+        "C11" => {
+            let ctx = Ctx::new(
+                "C11",
+                tier,
+                seed,
+                "exploration",
+                "a generated workload (appends, batches, consuming reads, marker calls over 1-3 topics; tiny and block-sized payloads) builds a valid directory and exits cleanly; 1-4 generated mutations are then applied: bit flips / byte sets / zeroed ranges / truncation aimed at entry headers (found in the WAL files by their owner string; length prefix, rkyv body incl. read_size and the relative string pointer), at payloads, anywhere in the allocated part, at the cursor file and the marker file; truncating / extending files; swapping two 10 MiB units; stray files (leftover *.tmp, empty all-digit file, all-digit directory, WAL-looking garbage file, non-UTF-8 name); removing the cursor or marker file. A fresh process (debug assertions and overflow checks on, so out-of-bounds and misaligned accesses inside the engine's unsafe decoding trap) opens the directory and reads every topic through every read API, with a 60 s watchdog. Oracle: no panic, abort, signal or hang; a clean Err from the constructor is accepted; every returned payload is an appended payload of that topic (first element of an offset read may be a suffix). Non-trivial = an effective mutation hit a decoded region (length prefix, header body, cursor or marker file) or changed the file structure (truncate, extend, swap, stray file).",
+                &["undefined behaviour is detected through rustc's debug assertions (bounds, alignment, overflow) rather than a sanitizer build", "loss, duplication and reordering of entries are allowed here (other properties)"],
+            );
+            props::damage::c11(&ctx);
+            ctx.finish(tier.pick(100, 2000))
+        }
         "C13" => {
             let ctx = Ctx::new(
                 "C13",
